@@ -456,6 +456,9 @@ class _Marker:
             new = dict(row)
             new[self.marker] = 1
             return new
+        if self.mode == 'sparse':
+            # a projection that keeps only the cells that are set: a NEW row, empty when none of the kept cells is set
+            return {k: row[k] for k in getattr(self, 'keep', ()) if row.get(k) is not None}
         return row
 
     def apply_rows(self, rows):
@@ -516,6 +519,7 @@ def _p_package(mk, package):
 def build_user(spec, env):
     param, kind = spec['param'], spec['kind']
     mk = _Marker(spec['marker'], spec.get('mode', 'inplace'), env)
+    mk.keep = tuple(spec.get('keep') or ())
     if kind == 'function':
         if param == 'row':
             def f(row):
@@ -538,7 +542,9 @@ def build_user(spec, env):
     if kind == 'partial':
         return functools.partial({'row': _p_row, 'rows': _p_rows, 'package': _p_package}[param], mk)
     if kind == 'callable_obj':
-        return {'row': _CallRow, 'rows': _CallRows, 'package': _CallPackage}[param](spec['marker'], spec.get('mode', 'inplace'), env)
+        obj = {'row': _CallRow, 'rows': _CallRows, 'package': _CallPackage}[param](spec['marker'], spec.get('mode', 'inplace'), env)
+        obj.keep = mk.keep
+        return obj
     raise ValueError(kind)
 
 
